@@ -24,6 +24,8 @@ DINPUTS = {
     "c": [((0, 1), (2, 3)), ((2,), (3, 1))],
     "d": [((0,), (1, 2)), ((3,), (1, 4)), ((1,), (0,))],
     "e": [((0, 1), (5, 6)), ((2, 3), (6, 7)), ((4,), (6,))],
+    "g": [((5, 6), (1,)), ((5, 7), (3,)), ((6, 7), (1, 4))],      # nodes that are a source of several hyperedges
+    "h": [((1,), (5, 6)), ((3,), (5, 7)), ((1, 4), (6, 7))],      # nodes that are a target of several hyperedges
 }
 
 
@@ -121,10 +123,14 @@ def build_directed(spec):
         h = hypergraphx.DirectedHypergraph(edges)
         d = Draws(S, spec.get("draws", 16))
 
+        calls = [0]
+
         def brange(n):
-            # the first k iterations are real; the remaining ones are skipped, which is what the code itself
-            # does whenever it draws id1 == id2
-            return builtins.range(min(n, k))
+            # the first k iterations of a phase are real; the remaining ones are skipped, which is what the code
+            # itself does whenever it draws id1 == id2.  k may be given per phase: [k_source_phase, k_target_phase]
+            kk = k[min(calls[0], len(k) - 1)] if isinstance(k, list) else k
+            calls[0] += 1
+            return builtins.range(min(n, kk))
 
         ctx = standins.bound(dcm, random=PyRandom(d), range=brange)
         with ctx:
@@ -198,8 +204,15 @@ def obligations(tier, seed):
                 "redraws": 0})
     for name in DINPUTS:
         out.append({"family": "directed", "input": name, "k": 1, "draws": 10})
-        if len(DINPUTS[name]) == 2 or not q:
+        if len(DINPUTS[name]) == 2 or (not q and name not in ("g", "h")):
             out.append({"family": "directed", "input": name, "k": 2, "draws": 18})
+    # two swap attempts in one phase only (the other phase skipped): histories in which a second swap meets the
+    # result of the first
+    out.append({"family": "directed", "input": "g", "k": [2, 0], "draws": 12})
+    out.append({"family": "directed", "input": "h", "k": [0, 2], "draws": 12})
+    if not q:
+        out.append({"family": "directed", "input": "a", "k": [2, 0], "draws": 12})
+        out.append({"family": "directed", "input": "d", "k": [0, 2], "draws": 12})
     return out
 
 
@@ -217,7 +230,8 @@ META = {
                  "{0,1,2}; label in {edge, stub}; detailed in {True, False}; every np.random.randint / rand outcome a "
                  "solver variable; with detailed=True a proposal of unequal sizes is redrawn at most 1 time per run (paths "
                  "needing more redraws are cut; uniform inputs need none and get 2 steps); size / order restricted variants; directed model: one effective swap attempt per phase "
-                 "(source phase, target phase) on 2-3 hyperedge inputs, two on the 2-hyperedge inputs",
+                 "(source phase, target phase) on 2-3 hyperedge inputs, two on the 2-hyperedge inputs, and two attempts in "
+                 "a single phase on 3-hyperedge inputs whose sources (targets) overlap",
         "thorough": "all 7 inputs, n_steps up to 3, two swap attempts per phase for every directed input",
     },
     "stand_ins": ["np.random in generation/configuration_model.py and random in directed_configuration_model.py -> "
